@@ -380,7 +380,7 @@ Proof.
 Qed.
 
 (* the clock of the specification, read off a state *)
-Definition clk_of (s : state) (q : Z) : clk := {| k_now := snow s; k_rounds := srounds s; k_quiet := q |}.
+Definition clk_of (s : state) (q : Z) : clk := {| k_now := snow s; k_rounds := srounds s; k_quiet := q; k_fail := None |}.
 
 Lemma set_sync_ok k m i it t : inner_ok k m i it -> inner_ok k m (set_sync i t) it.
 Proof. unfold inner_ok, set_sync. simpl. auto. Qed.
@@ -667,9 +667,12 @@ Definition counter_of (s : state) : option inner :=
 
 (* the specification's clock agrees with the state, and the silence it measures is not longer than the
    one the watchdog of the counter sees: lastSync <= the time of the last noisy event *)
+Definition HbCtx (k : clk) (s : state) : Prop :=
+  0 <= hage s /\ match k_fail k with Some t0 => hlast s = false /\ k_now k - t0 <= hage s | None => True end.
+
 Definition Ctx (k : clk) (s : state) : Prop :=
   snow s = k_now k /\ srounds s = k_rounds k /\ 0 <= k_quiet k <= k_now k /\
-  forall i, counter_of s = Some i -> isync i <= k_quiet k / 1000.
+  (forall i, counter_of s = Some i -> isync i <= k_quiet k / 1000) /\ HbCtx k s.
 
 Lemma has_counter_kind i : has_counter i = true <-> (iw i = WMI \/ iw i = WTB).
 Proof. unfold has_counter. destruct (iw i); split; intros H; auto; try discriminate; destruct H; discriminate. Qed.
@@ -903,19 +906,71 @@ Qed.
 Lemma div1000_mono a b : a <= b -> a / 1000 <= b / 1000.
 Proof. intros H. apply Z.div_le_mono; lia. Qed.
 
+Lemma sync_schema_hb s c' x :
+  hlast (sync_schema true true true s c' x) = hlast s /\ hage (sync_schema true true true s c' x) = hage s.
+Proof.
+  unfold sync_schema. destruct (present s); simpl; [|auto].
+  destruct (_ && _ && _); [auto|]. destruct (kind_eqb _ _); simpl; [|auto]. destruct (enable_global x); simpl; [|auto].
+  destruct (rem s) as [w|]; [|auto]. destruct (rin w); [|auto]. destruct (rcfg w); [|auto].
+  destruct (rw_sync _ _ _ _ _ _); auto.
+Qed.
+
+(* what a step does to the heartbeat bookkeeping *)
+Lemma step_hb st s e : crashed s = false ->
+  let s' := step true true true st s e in
+  match e with
+  | EHb ok => hlast s' = ok /\ hage s' = (if Bool.eqb (hlast s) ok then hage s else 0)
+  | ELeader => hlast s' = true /\ hage s' = (if Bool.eqb (hlast s) true then hage s else 0)
+  | EElapse ms => hlast s' = hlast s /\ hage s' = hage s + (if ms <? 0 then 0 else ms)
+  | _ => hlast s' = hlast s /\ hage s' = hage s
+  end.
+Proof.
+  intros Cr. unfold step. rewrite Cr.
+  destruct e as [it|idle sv mx rate|mx rate| |r rt|ok| |ms|x|k x a b g h| |]; simpl.
+  - destruct (present s && enable_global (sstr s)); [|auto]. unfold apply_sync. destruct (rw_sync _ _ _ _ _ _); auto.
+  - destruct (worker_target st s idle) as [[w i]|]; [|auto].
+    destruct sv; auto; destruct (set_limit _ _ _ _ _); auto.
+  - destruct (rem s) as [w|]; [|auto]. destruct (rin w) as [i|]; [|auto].
+    destruct (has_counter i && _); [|auto]. destruct (set_limit _ _ _ _ _); auto.
+  - destruct (present s && strategy_eqb (sstr s) SCount); [|auto]. unfold apply_sync. destruct (rw_sync _ _ _ _ _ _); auto.
+  - destruct (rem s) as [w|]; [|auto]. destruct (rin w); [|auto]. destruct (set_limit _ _ _ _ _); auto.
+  - unfold heartbeat. simpl. destruct (hlast s), ok; auto.
+  - unfold heartbeat. simpl. destruct (hlast s); auto.
+  - auto.
+  - apply sync_schema_hb.
+  - apply sync_schema_hb.
+  - destruct (present s); auto.
+  - destruct (present s && enable_global (sstr s)); [|auto]. destruct (rem s); auto.
+Qed.
+
 (* the specification's clock follows the state through every event *)
 Lemma ctx_step st maxrt k s e : 0 <= maxrt -> Inv maxrt s -> ev_ok e -> Ctx k s ->
   Ctx (next_clk k (observe true st s) e (with_sent (observe true st (step true true true st s e)) (sent_in st s e)))
       (step true true true st s e).
 Proof.
-  intros Hm I Ev (Cn & Cr & Cq & Cc). pose proof I as (I1 & _).
+  intros Hm I Ev (Cn & Cr & Cq & Cc & (Ha & Hf)). pose proof I as (I1 & _).
   destruct (step_proj st s e I1) as (_ & _ & _ & Pn & Pr).
+  pose proof (step_hb st s e I1) as Hb.
   unfold Ctx, next_clk. simpl.
   split; [rewrite Pn, Cn; destruct e; reflexivity|].
   split; [rewrite Pr, Cr; destruct e; reflexivity|].
   assert (Hn : k_now k <= match e with EElapse ms => k_now k + (if ms <? 0 then 0 else ms) | _ => k_now k end)
     by (destruct e; try apply Z.le_refl; destruct (ms <? 0) eqn:E0; lia).
   split; [destruct (noisy _ _ _); lia|].
+  split.
+  2:{ (* the run of failed heartbeats *)
+    unfold HbCtx, next_fail. simpl.
+    destruct e as [it|idle sv mx rate|mx rate| |r rt|ok| |ms|x|kk x a b g h| |]; simpl in *;
+      try (destruct Hb as [Hb1 Hb2]; rewrite Hb1, Hb2; split; [exact Ha|exact Hf]).
+    - destruct Hb as [Hb1 Hb2]. rewrite Hb1, Hb2. destruct ok.
+      + split; [destruct (Bool.eqb (hlast s) true); lia|exact Logic.I].
+      + destruct (k_fail k) as [t0|].
+        * destruct Hf as [Hl Hg]. rewrite Hl. simpl. auto.
+        * split; [destruct (Bool.eqb (hlast s) false); lia|]. split; [reflexivity|destruct (Bool.eqb (hlast s) false); lia].
+    - destruct Hb as [Hb1 Hb2]. rewrite Hb2. split; [destruct (Bool.eqb (hlast s) true); lia|exact Logic.I].
+    - destruct Hb as [Hb1 Hb2]. rewrite Hb1, Hb2. destruct (ms <? 0) eqn:E0.
+      + split; [lia|]. destruct (k_fail k); [|exact Logic.I]. destruct Hf. split; [assumption|lia].
+      + split; [lia|]. destruct (k_fail k); [|exact Logic.I]. destruct Hf. split; [assumption|lia]. }
   intros i' C'.
   assert (Now : now_sec s = k_now k / 1000) by (unfold now_sec; rewrite Cn; reflexivity).
   destruct (counter_step st maxrt s e i' I Ev C') as [(i & C & E)|(E & St)].
@@ -1027,7 +1082,7 @@ Lemma reply_applied st maxrt k s e r rt : 0 <= maxrt -> ev_ok e -> Inv maxrt s -
      (iw i = WEmpty \/
       exists i', set_limit true (scfg s) i r rt = Some i' /\ o_rem o' = Some (robs_of w i'))).
 Proof.
-  intros Hm Ev I (Cn & Cr & Cq & Cc) s' o' A. pose proof I as (I1 & V & Ip & I2 & I3).
+  intros Hm Ev I (Cn & Cr & Cq & Cc & _) s' o' A. pose proof I as (I1 & V & Ip & I2 & I3).
   pose proof (step_inv st maxrt s e 0 Hm Ev I) as I'. fold s' in I'.
   destruct (observe_rem_eq st _ _ I') as [Or _].
   assert (Orem : o_rem o' = observe_rem s') by (unfold o'; simpl; exact Or).
@@ -1133,6 +1188,28 @@ Lemma clause_with_sent st c str o b :
   absent_ok (with_sent o b) = absent_ok o.
 Proof. repeat split; reflexivity. Qed.
 
+Lemma o_ready_observe st maxrt s : Inv maxrt s -> o_ready (observe true st s) = is_ready st s.
+Proof.
+  intros I. destruct (present s) eqn:P.
+  - rewrite (observe_shape st maxrt s I P). reflexivity.
+  - rewrite (observe_absent st maxrt s I P). reflexivity.
+Qed.
+
+(* a heartbeat that fails more than 5 s into a run of failed heartbeats leaves the server not ready *)
+Lemma notready_holds st maxrt k s e b : 0 <= maxrt -> ev_ok e -> Inv maxrt s -> Ctx k s ->
+  notready_ok k e (with_sent (observe true st (step true true true st s e)) b) = true.
+Proof.
+  intros Hm Ev I (Cn & _ & _ & _ & (Ha & Hf)). unfold notready_ok.
+  destruct e; try reflexivity. destruct ok; try reflexivity.
+  destruct (k_fail k) as [t0|]; [|reflexivity]. destruct (5000 <? k_now k - t0) eqn:Q; [|reflexivity].
+  pose proof (step_inv st maxrt s (EHb false) 0 Hm Ev I) as I'.
+  simpl o_ready. rewrite (o_ready_observe st _ _ I'). destruct Hf as [Hl Hg].
+  unfold is_ready. destruct (cs st); try reflexivity.
+  destruct I as (I1 & _). unfold step. rewrite I1. unfold heartbeat. simpl. rewrite Hl. simpl.
+  destruct (hready s); simpl; [|reflexivity].
+  destruct (5000 <=? hage s) eqn:E; [reflexivity|lia].
+Qed.
+
 Lemma hist_holds st :
   forall ops s maxrt k, Forall ev_ok ops -> 0 <= maxrt -> Inv maxrt s -> Ctx k s ->
   hist_ok st (present s) (scfg s) (sstr s) maxrt k (observe true st s) (trace true true true st s ops) = all_true.
@@ -1164,6 +1241,8 @@ Proof.
   fold o' in B1, B2, B3, B4, B5. rewrite B1, B2, B3, B4, B5. rewrite (nopanic_holds st _ _ I').
   pose proof (failing_holds st maxrt k s e Hm Ee I C) as F1. pose proof (recovery_holds st maxrt k s e Hm Ee I C) as F2.
   fold s' in F1, F2. fold o' in F1, F2. rewrite F1, F2.
+  pose proof (notready_holds st maxrt k s e (sent_in st s e) Hm Ee I C) as F3. fold s' in F3. fold o' in F3. rewrite F3.
+  rewrite andb_true_r.
   destruct (present s') eqn:P.
   - rewrite (bound_holds st _ _ I' P), (fallback_holds st _ _ I' P), (inforce_holds st _ _ I' P). reflexivity.
   - rewrite (absent_holds st _ _ I' P). reflexivity.
@@ -1172,10 +1251,10 @@ Qed.
 Lemma init_inv c str0 : valid_cfg c -> Inv 0 (init c str0).
 Proof. intros V. unfold Inv, init. simpl. auto. Qed.
 
-Definition clk0 : clk := {| k_now := 0; k_rounds := 0; k_quiet := 0 |}.
+Definition clk0 : clk := {| k_now := 0; k_rounds := 0; k_quiet := 0; k_fail := None |}.
 
 Lemma init_ctx c str0 : Ctx clk0 (init c str0).
-Proof. unfold Ctx, clk0, init, counter_of. simpl. repeat split; try lia. intros i H. discriminate. Qed.
+Proof. unfold Ctx, HbCtx, clk0, init, counter_of. simpl. repeat split; try lia. intros i H. discriminate. Qed.
 
 Lemma case_holds st str0 ops : valid_cfg (cfg st) -> Forall ev_ok ops ->
   case_ok st str0 (observe true st (init (cfg st) str0)) (trace true true true st (init (cfg st) str0) ops) = all_true.
@@ -1605,7 +1684,7 @@ Lemma silence_history st str0 ops quiet mx rate w i : valid_cfg (cfg st) -> Fora
              end.
 Proof.
   intros V Ev Sq s c Rm Ri H U Rc El s'.
-  destruct (reach_ctx st str0 ops V Ev) as (m & k & Hm & I & (Cn & Cr & Cq & Cc)). fold s in I, Cn, Cr, Cc.
+  destruct (reach_ctx st str0 ops V Ev) as (m & k & Hm & I & (Cn & Cr & Cq & Cc & _)). fold s in I, Cn, Cr, Cc.
   destruct I as (I1 & _).
   destruct (silent_run st quiet s I1 Sq) as (A & B & C & D).
   assert (Evq : Forall ev_ok (ops ++ quiet)).
@@ -1622,4 +1701,56 @@ Proof.
   { replace (snow s / 1000 + 5) with ((snow s + 5 * 1000) / 1000) by (rewrite Z.div_add; lia).
     apply div1000_mono. lia. }
   lia.
+Qed.
+
+(* ---------- failed heartbeats ---------- *)
+(* rounds during which the limiter server keeps failing: failed heartbeats and time passing; a sync round whose
+   server info lists the same leader, lists none or fails changes nothing (it is [EElapse 0] in this model) *)
+Definition failing_round (e : ev) : Prop := match e with EHb false | EElapse _ => True | _ => False end.
+
+Lemma failing_round_ok e : failing_round e -> ev_ok e.
+Proof. destruct e; simpl; auto; contradiction. Qed.
+
+Lemma failing_run st : forall mid s a, crashed s = false -> hlast s = false -> a <= hage s -> Forall failing_round mid ->
+  let s' := run true true true st s mid in
+  crashed s' = false /\ hlast s' = false /\ a + elapsed mid <= hage s'.
+Proof.
+  induction mid as [|e r IH]; intros s a Cr Hl Ha F; [simpl; repeat split; auto; lia|].
+  inversion F as [|? ? Fe Fr]; subst. simpl run.
+  pose proof (step_hb st s e Cr) as Hb.
+  assert (Cr' : crashed (step true true true st s e) = false).
+  { unfold step. rewrite Cr. destruct e; try contradiction; [destruct ok; try contradiction; reflexivity|reflexivity]. }
+  destruct e; try contradiction.
+  - destruct ok; try contradiction. destruct Hb as [H1 H2]. rewrite Hl in H2. simpl in H2.
+    destruct (IH _ a Cr' H1 ltac:(lia) Fr) as (A & B & C). repeat split; auto.
+  - destruct Hb as [H1 H2]. rewrite Hl in H1.
+    destruct (IH _ (a + (if ms <? 0 then 0 else ms)) Cr' H1 ltac:(lia) Fr) as (A & B & C). repeat split; auto.
+    simpl elapsed. lia.
+Qed.
+
+(* for every history: a heartbeat fails, the failures go on (whatever the info rounds list) for 5 s or more,
+   and the next failed heartbeat finds the server not ready: the local limiter with the local limit is in force *)
+Lemma failed_heartbeats_fall_back st str0 ops mid : valid_cfg (cfg st) -> Forall ev_ok ops -> Forall failing_round mid ->
+  5000 <= elapsed mid ->
+  let s := run true true true st (init (cfg st) str0) (ops ++ [EHb false] ++ mid ++ [EHb false]) in
+  is_ready st s = false /\
+  (present s = true -> o_sel (observe true st s) = SelLocal /\ o_lim (observe true st s) = Some (local_spec (scfg s))).
+Proof.
+  intros V Ev F El s.
+  assert (Evm : Forall ev_ok mid) by (eapply Forall_impl; [|exact F]; intros e; apply failing_round_ok).
+  assert (R : hready s = false).
+  { subst s. rewrite run_app. destruct (reach_inv st str0 ops V Ev) as (m & _ & (I1 & _)).
+    set (s0 := run true true true st (init (cfg st) str0) ops) in *.
+    change ([EHb false] ++ mid ++ [EHb false]) with (EHb false :: (mid ++ [EHb false])). simpl run. rewrite run_app.
+    pose proof (step_hb st s0 (EHb false) I1) as [H1 H2].
+    assert (C1 : crashed (step true true true st s0 (EHb false)) = false) by (unfold step; rewrite I1; exact I1).
+    assert (A0 : 0 <= hage (step true true true st s0 (EHb false))).
+    { rewrite H2. assert (0 <= hage s0) by (apply hage_run; simpl; lia). destruct (Bool.eqb _ _); lia. }
+    destruct (failing_run st mid _ 0 C1 H1 A0 F) as (C2 & L2 & G2).
+    set (s2 := run true true true st (step true true true st s0 (EHb false)) mid) in *.
+    simpl. unfold step. rewrite C2. unfold heartbeat. simpl. rewrite L2. simpl.
+    destruct (hready s2); simpl; [|reflexivity]. destruct (5000 <=? hage s2) eqn:E; [reflexivity|lia]. }
+  split; [unfold is_ready; destruct (cs st); auto|].
+  intros P. apply fallback; auto.
+  apply Forall_app_ok; [assumption|]. constructor; [exact Logic.I|]. apply Forall_app_ok; [assumption|repeat constructor].
 Qed.
